@@ -95,12 +95,12 @@ Section Tree.
   Definition top_forbids_root (t : tree) : Prop :=
     tree_terms t = [] \/ exists tm0, tree_terms t = [(r, tm0)] /\ t_contains O tm0 rv = true.
 
-  Theorem nosolution_tree_is_proof fuel tr t st log :
-    WellBehaved O reg tr -> resolve O veqb fuel r rv tr = (ONoSolution t, st, log) ->
+  Theorem nosolution_tree_is_proof fuel tr t st log k :
+    WellBehaved O reg tr -> resolve O veqb fuel r rv tr = (ONoSolution t, st, log, k) ->
     tree_ok t /\ top_forbids_root t.
   Proof.
     intros Hwb E.
-    destruct (resolve_nosolution_tree O L veqb reg r rv Hregwf veqb_eq fuel tr t st log Hwb E)
+    destruct (resolve_nosolution_tree O L veqb reg r rv Hregwf veqb_eq fuel tr t st log k Hwb E)
       as (Hs & id & Hb & i & Hi & Hterm).
     unfold build_derivation_tree in Hb.
     destruct (tree_dfs _ (store st) [id] [] []) as [[all shared]|]; [|discriminate].
